@@ -68,7 +68,7 @@ class Run:
 _feas_solver_timeout_ms = 2000
 
 
-def guarded_check(assertions, timeout_ms, on_sat=None, grace=1.5):
+def guarded_check(assertions, timeout_ms, on_sat=None, grace=1.5, on_unknown=None):
     """s.check() in a forked child with a HARD wall-clock limit (z3 5.1's sequence solver can ignore its own
     timeout). Returns (verdict, payload): verdict in sat/unsat/unknown/hang; payload = on_sat(model) JSON for sat."""
     import json
@@ -94,6 +94,18 @@ def guarded_check(assertions, timeout_ms, on_sat=None, grace=1.5):
                     out["err"] = repr(e)[:300]
             elif res == z3.unknown:
                 out["why"] = s.reason_unknown()
+                if on_unknown is not None:
+                    # incomplete theory: the solver's CANDIDATE model proves nothing by itself; the caller may confirm
+                    # it by running the real function natively (a concrete failing execution is a refutation)
+                    try:
+                        s2 = z3.SimpleSolver()  # the tactic-based default solver keeps no model on `unknown`
+                        s2.set("timeout", int(min(timeout_ms, 2000)))
+                        for c in assertions:
+                            s2.add(c)
+                        if s2.check() != z3.unsat:
+                            out["cand"] = on_unknown(s2.model())
+                    except BaseException:  # noqa
+                        out["cand"] = None
             data = json.dumps(out, default=str).encode()
             os.write(w, len(data).to_bytes(8, "big") + data)
         except BaseException:  # noqa
